@@ -182,6 +182,44 @@ def class_attr_diff(before):
     return new
 
 
+def member_cache_check():
+    """the per-class caches of _get_members() (dictionaries class name -> list, hung on classes at run time): every cached list
+    must hold exactly the members of that class and its ancestors (by value), and no two entries - nor an entry and a class's own
+    member_data_items_ - may be the same list object"""
+    bad = []
+    seen = {}
+    own = {}
+    for n in dir(nml):
+        c = getattr(nml, n, None)
+        if isinstance(c, type) and isinstance(vars(c).get("member_data_items_"), list):
+            own[id(vars(c)["member_data_items_"])] = n
+    for n in dir(nml):
+        c = getattr(nml, n, None)
+        if not isinstance(c, type):
+            continue
+        d = vars(c).get("_GeneratedsSuperSuper__all_members_")
+        if not isinstance(d, dict):
+            continue
+        for k, lst in d.items():
+            kc = getattr(nml, k, None)
+            if not isinstance(kc, type) or not isinstance(lst, list):
+                bad.append("%s: entry of type %s" % (k, type(lst).__name__))
+                continue
+            want = sorted(m.get_name() for b in kc.__mro__ for m in (vars(b).get("member_data_items_") or [])
+                          if isinstance(vars(b).get("member_data_items_"), list))
+            got = sorted(m.get_name() for m in lst)
+            if got != want:
+                bad.append("%s: cached members differ from those of the class and its ancestors: extra %s, missing %s"
+                           % (k, sorted(set(got) - set(want))[:4] + (["<duplicates>"] if len(got) != len(set(got)) else []),
+                              sorted(set(want) - set(got))[:4]))
+            if id(lst) in seen and seen[id(lst)] != k:
+                bad.append("%s and %s share one list object" % (seen[id(lst)], k))
+            seen.setdefault(id(lst), k)
+            if id(lst) in own:
+                bad.append("%s: the cached list is %s.member_data_items_ itself" % (k, own[id(lst)]))
+    return bad[:10]
+
+
 def str_ok(o):
     try:
         str(o)
@@ -262,9 +300,41 @@ def touch(o, methods):
     return left
 
 
-def run_call(parent, call, objs, real_stdout):
-    """one add() call; objs = components handed to earlier calls of this case (for re-adding the same object)"""
+def filters_diff(f0):
+    f1 = list(warnings.filters)
+    if f1 == f0:
+        return None
+    return [repr(x)[:120] for x in f1 if x not in f0][:3] + ["removed: " + repr(x)[:100] for x in f0 if x not in f1][:3]
+
+
+def run_pre(steps):
+    """things the program does between the adds: components made through the factories (on a scratch document); reports
+    whether they left warnings.filters (process-global state) changed"""
+    import neuroml.utils
+    f0 = list(warnings.filters)
+    for st in steps:
+        arg = st["cls"] if st.get("form", "str") == "str" else getattr(nml, st["cls"])
+        kw = {k: conv(v) for k, v in st.get("kw", [])}
+        try:
+            if st["how"] == "add":
+                nml.NeuroMLDocument(id="scratch").add(arg, validate=False, **kw)
+            elif st["how"] == "utils":
+                neuroml.utils.component_factory(arg, False, **kw)
+            else:
+                nml.NeuroMLDocument.component_factory(arg, validate=False, **kw)
+        except Exception:  # noqa
+            pass
+    return filters_diff(f0)
+
+
+def run_call(parent, call, objs, real_stdout, scoped=None):
+    """one add() call; objs = components handed to earlier calls of this case (for re-adding the same object);
+    scoped = the record list of a catch_warnings scope entered before the whole history (then no filter is installed here)"""
     r = {}
+    if call.get("pre"):
+        d = run_pre(call["pre"])
+        if d is not None:
+            r["pre_filters_changed"] = d
     ch = call["child"]
     kwargs = {}
     child = None
@@ -317,8 +387,15 @@ def run_call(parent, call, objs, real_stdout):
     lg.addHandler(handler)
     sw = btv.ENABLED
     ret = None
-    with warnings.catch_warnings(record=True) as ws:
+    cm = None
+    if scoped is None:
+        cm = warnings.catch_warnings(record=True)
+        ws = cm.__enter__()
         warnings.simplefilter("always")
+    else:
+        n0 = len(scoped)
+    f0 = list(warnings.filters)
+    try:
         try:
             conv_ = call.get("conv", "kw")
             if conv_ == "pos":
@@ -337,6 +414,14 @@ def run_call(parent, call, objs, real_stdout):
             if in_str:
                 r["code"] = [10, []]   # raised by the child's __str__ while the duplicate warning was formatted
             r["exc"] = type(e).__name__ + ": " + str(e)[:160]
+    finally:
+        d = filters_diff(f0)        # add() must leave the process-wide warning filters alone
+        if d is not None:
+            r["filters_changed"] = d
+        if cm is not None:
+            cm.__exit__(None, None, None)
+        else:
+            ws = scoped[n0:]
     lg.removeHandler(handler)
     r["switch_unchanged"] = btv.ENABLED == sw
     r["warn"] = [parse_warning(w) for w in ws]
@@ -379,9 +464,18 @@ def main():
                 parent = construct(case["parent"])
                 out["parent"] = dump(parent)
                 objs = []
-                for call in case["calls"]:
-                    sys.stdout = io.StringIO()
-                    out["calls"].append(run_call(parent, call, objs, real_stdout))
+                if case.get("one_warning_scope"):
+                    # the warnings of the whole history are recorded in ONE scope entered before it, the "always" filter set once:
+                    # a filter that a call leaves behind acts on the calls after it, as it would in a user's program
+                    with warnings.catch_warnings(record=True) as rec:
+                        warnings.simplefilter("always")
+                        for call in case["calls"]:
+                            sys.stdout = io.StringIO()
+                            out["calls"].append(run_call(parent, call, objs, real_stdout, scoped=rec))
+                else:
+                    for call in case["calls"]:
+                        sys.stdout = io.StringIO()
+                        out["calls"].append(run_call(parent, call, objs, real_stdout))
             except Exception as e:  # noqa
                 import traceback
                 out["harness_error"] = type(e).__name__ + ": " + str(e)[:300] + " @ " + traceback.format_exc()[-600:]
